@@ -398,6 +398,9 @@ func runC05(c *Ctx) {
 	// ---------- R5 client composites: accumulated results are threaded through loops ----------
 	checkAccumulators(c, "R5")
 
+	// ---------- R6 Client.MkdirAll reports what os.MkdirAll reports ----------
+	checkMkdirAllSibling(c, "R6")
+
 	// ---------- R4 toLocalPath ----------
 	if tl := p.Func("(*Server).toLocalPath"); tl == nil {
 		c.missing("R4", "(*Server).toLocalPath")
@@ -686,4 +689,106 @@ func flowsTo(src, dst ssa.Value, seen map[ssa.Value]bool, d int) bool {
 		}
 	}
 	return false
+}
+
+
+// errSources is the path-insensitive provenance of a function's error result: "nil", "call:<name>" for the error
+// returned by a callee, "new:<Type>[:<Err constant>]" for an error value built in place.
+func errSources(fn *ssa.Function, resIdx int) map[string]bool {
+	out := map[string]bool{}
+	for _, rl := range returnLeaves(fn, resIdx) {
+		for _, l := range leavesOf(rl.v) {
+			switch l.Kind {
+			case leafConst:
+				if k, ok := l.V.(*ssa.Const); ok && k.Value == nil {
+					out["nil"] = true
+				} else {
+					out["const:"+l.V.String()] = true
+				}
+			case leafCallResult:
+				out["call:"+calleeName(l.Call)] = true
+			default:
+				if a, ok := l.V.(*ssa.Alloc); ok {
+					tok := "new:" + typeName(a.Type())
+					if n := namedOf(a.Type()); n != nil {
+						tok = "new:" + n.Obj().Name()
+					}
+					if e := litField(a, "Err"); e != nil {
+						if k, ok := constInt(stripConv(e)); ok {
+							tok += fmt.Sprintf(":errno=%d", k)
+						}
+					}
+					out[tok] = true
+				} else {
+					out["other:"+l.V.String()] = true
+				}
+			}
+		}
+	}
+	return out
+}
+
+// checkMkdirAllSibling (C05.R6): Client.MkdirAll is documented to mimic os.MkdirAll.  Both are analysed with the same
+// provenance function and must report errors from the corresponding sources (Stat↔Stat, Mkdir↔Mkdir, the recursive
+// call, the ENOTDIR PathError): e.g. when Mkdir fails and Lstat does not show a directory, the error is Mkdir's.
+func checkMkdirAllSibling(c *Ctx, rule string) {
+	p := c.P
+	cl := p.Func("(*Client).MkdirAll")
+	if cl == nil {
+		c.missing(rule, "(*Client).MkdirAll")
+		return
+	}
+	c.looked("(*Client).MkdirAll")
+	var ref *ssa.Function
+	if op := p.byPath["os"]; op != nil {
+		if sp := p.SSA.Package(op.Types); sp != nil {
+			ref = sp.Func("MkdirAll")
+		}
+	}
+	want := map[string]bool{}
+	refDesc := "os.MkdirAll of the toolchain"
+	if ref != nil && ref.Blocks != nil {
+		want = errSources(ref, 0)
+	}
+	// the toolchain's os.MkdirAll is the reference; if its shape is not the expected one the frozen table is used
+	frozen := map[string]bool{"nil": true, "call:MkdirAll": true, "call:Mkdir": true, "new:PathError:errno=20": true}
+	same := func(a, b map[string]bool) bool {
+		if len(a) != len(b) {
+			return false
+		}
+		for k := range a {
+			if !b[k] {
+				return false
+			}
+		}
+		return true
+	}
+	if !same(want, frozen) {
+		want, refDesc = frozen, "os.MkdirAll (frozen table; the toolchain's version has another shape)"
+	}
+	got := errSources(cl, 0)
+	keys := func(m map[string]bool) string {
+		var ks []string
+		for k := range m {
+			ks = append(ks, k)
+		}
+		sort.Strings(ks)
+		return strings.Join(ks, ", ")
+	}
+	c.check(same(got, want), rule, "MkdirAll error sources", p.Pos(cl.Pos()), "{"+keys(got)+"} as in "+refDesc,
+		"Client.MkdirAll returns errors from {"+keys(got)+"}, "+refDesc+" returns them from {"+keys(want)+"}: a failure is reported with another call's error (and category) than package os reports")
+	// success sources: nil is returned only after a successful Stat/Lstat showing a directory or a successful Mkdir —
+	// decided by the same comparison on the number of nil returns
+	nilRets := func(fn *ssa.Function) int {
+		n := 0
+		for _, rl := range returnLeaves(fn, 0) {
+			if k, ok := rl.v.(*ssa.Const); ok && k.Value == nil {
+				n++
+			}
+		}
+		return n
+	}
+	if ref != nil && ref.Blocks != nil {
+		c.check(nilRets(cl) == nilRets(ref), rule, "MkdirAll success returns", p.Pos(cl.Pos()), fmt.Sprintf("%d, as os.MkdirAll", nilRets(cl)), fmt.Sprintf("Client.MkdirAll has %d success returns, os.MkdirAll has %d", nilRets(cl), nilRets(ref)))
+	}
 }
